@@ -168,7 +168,8 @@ def _limits():
 
 # address space 6 GB, files 256 MB, cpu 600 s -- set by the shell that execs the child (no preexec_fn: python
 # forks much faster without it when many threads start children)
-LIMIT_WRAP = ["/bin/sh", "-c", "ulimit -v 6291456; ulimit -f 524288; ulimit -t 600; exec \"$@\"", "sh"]
+LIMIT_WRAP = ["/bin/sh", "-c", "ulimit -s 1000000; ulimit -v 6291456; ulimit -f 524288; ulimit -t 600; exec \"$@\"",
+              "sh"]
 
 
 def run_limited(cmd, inp=None, timeout=120):
@@ -251,12 +252,36 @@ def run_harness(exe, srcs):
 
 
 def run_spec(cases, mode=("pp", "c11")):
-    inp = "".join(G.proto_case(i, c) for i, c in enumerate(cases))
-    rc, out, err = run_limited([DRV] + list(mode), inp, timeout=600)
-    res = parse_blocks(out)
-    if "BADLINE" in out:
-        ck.broken_ties.append({"kind": "driver-protocol", "name": "mirdrv_c09 pp", "first_diff": out[:300]})
-    return [res.get(i, {"t": [], "err": 1}) for i in range(len(cases))]
+    """C11 specification (Lean driver) on a list of cases.  A case on which the driver dies (stack / memory
+    exhaustion on an exponentially growing expansion) is marked err="spec-crash" and the rest is re-run."""
+    out = [None] * len(cases)
+    todo = list(range(len(cases)))
+    ncrash = 0
+    while todo:
+        inp = "".join(G.proto_case(i, cases[i]) for i in todo)
+        rc, so, err = run_limited([DRV] + list(mode), inp, timeout=600)
+        if "BADLINE" in so:
+            ck.broken_ties.append({"kind": "driver-protocol", "name": "mirdrv_c09 pp", "first_diff": so[:300]})
+        res = parse_blocks(so)
+        nxt, bad = [], None
+        for i in todo:
+            r = res.get(i)
+            if r is not None and r["done"]:
+                out[i] = r
+            elif bad is None:
+                bad = i
+                ncrash += 1
+                out[i] = {"t": [], "err": "spec-crash"}
+                stats["spec_crash"] = stats.get("spec_crash", 0) + 1
+            else:
+                nxt.append(i)
+        if ncrash > 20:
+            for i in nxt:
+                out[i] = {"t": [], "err": "spec-crash"}
+            ck.broken_ties.append({"kind": "driver-crash", "name": "mirdrv_c09 dies repeatedly", "first_diff": err[-300:]})
+            break
+        todo = nxt
+    return out
 
 
 def run_c2m_binary(src):
